@@ -17,7 +17,11 @@ type Field struct {
 }
 
 // Elem is A + B*i with 0 <= A,B < p. For Deg 1 fields B is always 0.
+// Elements are immutable values: nothing in this package (and no caller may)
+// writes through A or B, which lets prime-field elements share one zero.
 type Elem struct{ A, B *big.Int }
+
+var zero = new(big.Int)
 
 func NewFp(p *big.Int) *Field  { return &Field{P: new(big.Int).Set(p), Deg: 1} }
 func NewFp2(p *big.Int) *Field { return &Field{P: new(big.Int).Set(p), Deg: 2} }
@@ -35,24 +39,35 @@ func (f *Field) New(a, b *big.Int) Elem {
 	return Elem{f.mod(a), f.mod(b)}
 }
 
-func (f *Field) Int(a int64) Elem        { return f.New(big.NewInt(a), nil) }
-func (f *Field) Int2(a, b int64) Elem    { return f.New(big.NewInt(a), big.NewInt(b)) }
-func (f *Field) Zero() Elem              { return f.Int(0) }
-func (f *Field) One() Elem               { return f.Int(1) }
-func (f *Field) IsZero(x Elem) bool      { return x.A.Sign() == 0 && x.B.Sign() == 0 }
-func (f *Field) Equal(x, y Elem) bool    { return x.A.Cmp(y.A) == 0 && x.B.Cmp(y.B) == 0 }
-func (f *Field) Add(x, y Elem) Elem      { return Elem{f.mod(new(big.Int).Add(x.A, y.A)), f.mod(new(big.Int).Add(x.B, y.B))} }
-func (f *Field) Sub(x, y Elem) Elem      { return Elem{f.mod(new(big.Int).Sub(x.A, y.A)), f.mod(new(big.Int).Sub(x.B, y.B))} }
-func (f *Field) Neg(x Elem) Elem         { return f.Sub(f.Zero(), x) }
-func (f *Field) Sqr(x Elem) Elem         { return f.Mul(x, x) }
-func (f *Field) Conj(x Elem) Elem        { return Elem{new(big.Int).Set(x.A), f.mod(new(big.Int).Neg(x.B))} }
+func (f *Field) Int(a int64) Elem     { return f.New(big.NewInt(a), nil) }
+func (f *Field) Int2(a, b int64) Elem { return f.New(big.NewInt(a), big.NewInt(b)) }
+func (f *Field) Zero() Elem           { return f.Int(0) }
+func (f *Field) One() Elem            { return f.Int(1) }
+func (f *Field) IsZero(x Elem) bool   { return x.A.Sign() == 0 && x.B.Sign() == 0 }
+func (f *Field) Equal(x, y Elem) bool { return x.A.Cmp(y.A) == 0 && x.B.Cmp(y.B) == 0 }
+func (f *Field) Add(x, y Elem) Elem {
+	if f.Deg == 1 {
+		return Elem{f.mod(new(big.Int).Add(x.A, y.A)), zero}
+	}
+	return Elem{f.mod(new(big.Int).Add(x.A, y.A)), f.mod(new(big.Int).Add(x.B, y.B))}
+}
+
+func (f *Field) Sub(x, y Elem) Elem {
+	if f.Deg == 1 {
+		return Elem{f.mod(new(big.Int).Sub(x.A, y.A)), zero}
+	}
+	return Elem{f.mod(new(big.Int).Sub(x.A, y.A)), f.mod(new(big.Int).Sub(x.B, y.B))}
+}
+func (f *Field) Neg(x Elem) Elem             { return f.Sub(f.Zero(), x) }
+func (f *Field) Sqr(x Elem) Elem             { return f.Mul(x, x) }
+func (f *Field) Conj(x Elem) Elem            { return Elem{new(big.Int).Set(x.A), f.mod(new(big.Int).Neg(x.B))} }
 func (f *Field) MulInt(x Elem, k int64) Elem { return f.Mul(x, f.Int(k)) }
 
 // Mul is schoolbook multiplication with i^2 = -1.
 func (f *Field) Mul(x, y Elem) Elem {
 	a := new(big.Int).Mul(x.A, y.A)
 	if f.Deg == 1 {
-		return Elem{f.mod(a), new(big.Int)}
+		return Elem{f.mod(a), zero}
 	}
 	a.Sub(a, new(big.Int).Mul(x.B, y.B))
 	b := new(big.Int).Mul(x.A, y.B)
@@ -64,6 +79,9 @@ func (f *Field) Mul(x, y Elem) Elem {
 func (f *Field) Inv(x Elem) Elem {
 	if f.IsZero(x) {
 		panic("fpx: inverse of zero")
+	}
+	if f.Deg == 1 {
+		return Elem{new(big.Int).ModInverse(x.A, f.P), zero}
 	}
 	// 1/(a+bi) = (a-bi)/(a^2+b^2)
 	n := new(big.Int).Mul(x.A, x.A)
@@ -183,4 +201,4 @@ func FromLE(b []byte) *big.Int {
 }
 
 func ToBE(x *big.Int, n int) []byte { return x.FillBytes(make([]byte, n)) }
-func FromBE(b []byte) *big.Int     { return new(big.Int).SetBytes(b) }
+func FromBE(b []byte) *big.Int      { return new(big.Int).SetBytes(b) }
